@@ -12,7 +12,15 @@ package main
 //
 // Predicates on the real outputs: round trip (type preserved, RawEquals and Equals),
 // mirror (plain encoding/json decoding has the value's structure), document round
-// trip, rejection of unknown / marked / infinite.
+// trip, rejection of unknown / marked / infinite, no optional-attribute annotation in the
+// type of any decoded value.
+//
+// A round-trip failure is signed with its ROOT CAUSE, worked out from what was observed
+// (c15Cause): nested-placeholder-null/-empty (type lost or output refused, and the outcome is
+// the one unmarshal.go's rules give: c15PredTy), num-reparse / num-text-not-exact-at-own-
+// precision / set-hash (types agree and every difference found by walking original and result
+// in parallel is exactly that: c15Diff); anything else is `unexpected` and never matches a
+// recorded finding.
 
 import (
 	"bytes"
